@@ -556,4 +556,41 @@ example : run exOps (exEnv [some 1, none] [some 2, some 3]) (javaCompareBody [ex
 example : run exOps (exEnv [some 2, some 4] []) (javaHashBody [exA, exB]) = .ok (.int ((17 * 31 + 2) * 31 + 5)) := by decide
 example : javaToString exOps "p.R" [exA, exB] (exEnv [some 2, none] []) = "p.R{a=2,b=null}" := by decide
 
+/-! ## the declaration order is part of the specification
+
+`cpp_lt_lex` / `java_compare_lex` are statements about the field list `fs` *in the order of the declaration*. Code that was
+emitted for another order of the same fields — the files of an earlier run that are still on disk after the declaration was
+edited — implements another relation: the compiled drivers are judged against the declaration as it is now, with every
+field read back by its declared name (`c09.spec`, clause "a field read by its declared name …"). -/
+
+def exC9 : Field := ⟨1, "c", "c", false, false, false, false⟩
+
+/-- two objects that the order by (`a`, `c`) and the order by (`c`, `a`) rank differently: `<`, `compareTo` and the
+    constructor argument order of the stale code disagree with the edited declaration -/
+theorem stale_field_order_counterexample :
+    cppOp exOps [exA, exC9] (exEnv [some 1, some 2] [some 2, some 1]) .lt = .ok (.bool true) ∧
+    cppOp exOps [exC9, exA] (exEnv [some 1, some 2] [some 2, some 1]) .lt = .ok (.bool false) ∧
+    run exOps (exEnv [some 1, some 2] [some 2, some 1]) (javaCompareBody [exA, exC9]) = .ok (.int (-1)) ∧
+    run exOps (exEnv [some 1, some 2] [some 2, some 1]) (javaCompareBody [exC9, exA]) = .ok (.int 1) := by decide
+
+/-- **field_order_matters**: over any linear order with two different values, the `<` emitted for `[f, g]` and the `<`
+    emitted for `[g, f]` differ on some pair of objects -/
+theorem field_order_matters {φ α : Type} [LinearOrder α] (hp ho : α → Int) (st : α → String) (f g : φ) (hfg : f ≠ g) [DecidableEq φ]
+    (x y : α) (hxy : x < y) :
+    ∃ a b : φ → Option α,
+      cppOp (stdOps hp ho st) [f, g] ⟨a, b⟩ .lt = .ok (.bool true) ∧ cppOp (stdOps hp ho st) [g, f] ⟨a, b⟩ .lt = .ok (.bool false) := by
+  refine ⟨fun h => if h = f then some x else some y, fun h => if h = f then some y else some x, ?_, ?_⟩
+  · rw [cpp_lt_lex]
+    have hgf : g ≠ f := fun h => hfg h.symm
+    simp only [key, List.map_cons, List.map_nil, if_true, hgf, if_false, Option.toList]
+    congr 2
+    simp only [decide_eq_true_eq]
+    exact List.Lex.rel (List.Lex.rel hxy)
+  · rw [cpp_lt_lex]
+    have hgf : g ≠ f := fun h => hfg h.symm
+    simp only [key, List.map_cons, List.map_nil, if_true, hgf, if_false, Option.toList]
+    congr 2
+    simp only [decide_eq_false_iff_not]
+    exact lt_asymm (show ([[x], [y]] : List (List α)) < [[y], [x]] from List.Lex.rel (List.Lex.rel hxy))
+
 end Pydjinni.Gen
